@@ -39,7 +39,16 @@ func c01Work(c *mc.Ctx) { enumCases(c, c01Case) }
 // enumCases walks the whole bounded universe, handing this worker's shard of
 // (configuration, type-in-position, value) cases to f.
 func enumCases(c *mc.Ctx, f func(c *mc.Ctx, cfg ref.Cfg, it ref.Item, v ref.V, vs string, undoc string)) {
-	items := ref.Universe(c.Tier)
+	enumItems(c, ref.Universe(c.Tier), f)
+}
+
+// enumItems is enumCases over an explicit item list.
+func enumItems(c *mc.Ctx, items []ref.Item, f func(c *mc.Ctx, cfg ref.Cfg, it ref.Item, v ref.V, vs string, undoc string)) {
+	enumItemsCfg(c, items, cfgsFor, f)
+}
+
+// enumItemsCfg lets the caller choose the configurations per type.
+func enumItemsCfg(c *mc.Ctx, items []ref.Item, cfgs func(*ref.T) []ref.Cfg, f func(c *mc.Ctx, cfg ref.Cfg, it ref.Item, v ref.V, vs string, undoc string)) {
 	lvl := lvlFor(c.Tier)
 	for ti, it := range items {
 		if !c.Owns(ti) {
@@ -50,7 +59,7 @@ func enumCases(c *mc.Ctx, f func(c *mc.Ctx, cfg ref.Cfg, it ref.Item, v ref.V, v
 			return
 		}
 		vals := ref.Values(it.T, lvl)
-		for _, cfg := range cfgsFor(it.T) {
+		for _, cfg := range cfgs(it.T) {
 			if ref.ClassOf(cfg, it.T, "") == ref.CR {
 				continue // documented: the repeated form does not work outside a struct
 			}
